@@ -236,7 +236,7 @@ func labelKey(m map[string]string) string {
 func toKVs(as []Attr) []attribute.KeyValue {
 	out := make([]attribute.KeyValue, len(as))
 	for i, a := range as {
-		out[i] = attribute.String(a.K, a.V)
+		out[i] = kvOf(a.K, a.V)
 	}
 	return out
 }
